@@ -129,6 +129,12 @@ func buildAccessories() []*accessory.Accessory {
 	ang.Value = 0
 	intendedPerms[ang.Characteristic] = "rwe"
 	svc.AddCharacteristic(ang.Characteristic)
+	// a characteristic from a library constructor (default value set, read/write/events) that the application then
+	// restricts to a permission set of the SAME size: read, events, hidden -- not writable any more
+	lvl := characteristic.NewBrightness()
+	lvl.Perms = []string{characteristic.PermRead, characteristic.PermEvents, characteristic.PermHidden}
+	intendedPerms[lvl.Characteristic] = "re"
+	svc.AddCharacteristic(lvl.Characteristic)
 	sw.AddService(svc)
 	return []*accessory.Accessory{br.Accessory, lb.Accessory, th.Accessory, sw.Accessory}
 }
@@ -480,6 +486,38 @@ func runStack(id string, toks []string) (res string) {
 			} else {
 				emit(fmt.Sprintf("PSPLIT=%d/%s", r.status, other))
 			}
+		case "LSPLIT":
+			// LSPLIT:<c>:<aid.iid>:<v1>/<v2>/...  connection c sends the headers of a subscription request for the characteristic;
+			// while its body is outstanding (the request is being handled) the application sets the values one after the
+			// other; then the body follows
+			cc := w.conns[p[1]]
+			ch := w.find(p[2])
+			if cc == nil || cc.dead || ch == nil {
+				emit("LSPLIT=noconn")
+				continue
+			}
+			ids := strings.Split(p[2], ".")
+			aid, _ := strconv.Atoi(ids[0])
+			iid, _ := strconv.Atoi(ids[1])
+			body, _ := json.Marshal(map[string]interface{}{"characteristics": []interface{}{map[string]interface{}{"aid": aid, "iid": iid, "ev": true}}})
+			r, err := cc.requestSplit("PUT", "/characteristics", "application/hap+json", body, func() {
+				for _, vt := range strings.Split(strings.Join(p[3:], ":"), "/") {
+					v := tokenValue(strings.SplitN(vt, "@", 2)[0])
+					if f, ok := v.(float64); ok && ch.Format != characteristic.FormatFloat {
+						ch.UpdateValue(int(f))
+					} else {
+						ch.UpdateValue(v)
+					}
+					time.Sleep(2 * time.Millisecond)
+				}
+			})
+			if err != nil {
+				emit("LSPLIT=closed")
+			} else {
+				emit(fmt.Sprintf("LSPLIT=%d", r.status))
+			}
+		case "INJ":
+			emit(w.injectBehindFinish(p[1], p[2], p[3]))
 		case "SRPMANY":
 			emit(w.srpMany(p[1]))
 		case "STALL":
@@ -692,7 +730,7 @@ func (w *world) pairVerify(cn, ctrl, variant string) string {
 				step(v.m3(id.name, id.priv, "reordered"))
 			}
 		}
-	case "badsig", "unknown", "unknowntail", "reordered", "stale", "zerokey", "randkey", "flip", "inner-garbage", "short0", "short7", "short15", "short16", "reflect", "accname":
+	case "badsig", "unknown", "unknowntail", "reordered", "stale", "zerokey", "randkey", "flip", "inner-garbage", "inner-trailing", "short0", "short7", "short15", "short16", "reflect", "accname":
 		fresh()
 		if _, ok := step(v.m1(nil, w.accLTPK)); ok {
 			name, signer, vv := id.name, id.priv, variant
@@ -1391,4 +1429,71 @@ func (w *world) srpMany(ns string) string {
 		return fmt.Sprintf("SRPMANY=%d-of-%d-failed:%s", bad, n, first)
 	}
 	return "SRPMANY=ok"
+}
+
+
+// injectBehindFinish: INJ:<ctrl>:<aid.iid>:<attempts>
+// Somebody on the path between a paired controller and the accessory appends PLAINTEXT requests (fillers that are refused and
+// writes of `true` to the boolean characteristic) to the segment that carries the controller's genuine pair-verify finish, and
+// one stray byte a little later.  What the controller sent ends with the finish; everything behind it is the beginning of the
+// encrypted stream and none of it was sealed by the controller.  The application's value must stay false.
+// Emits INJ=none, or INJ=hit<k>/<n> when the injected write took effect in k of n attempts.
+func (w *world) injectBehindFinish(ctrl, cid, attempts string) string {
+	c := w.find(cid)
+	if c == nil {
+		return "INJ=nochar"
+	}
+	n, _ := strconv.Atoi(attempts)
+	ids := strings.Split(cid, ".")
+	aid, _ := strconv.Atoi(ids[0])
+	iid, _ := strconv.Atoi(ids[1])
+	id := w.ident(ctrl)
+	hits, ran := 0, 0
+	delays := []time.Duration{300 * time.Microsecond, 100 * time.Microsecond, 600 * time.Microsecond, time.Millisecond, 0, 2 * time.Millisecond}
+	for i := 0; i < n; i++ {
+		c.UpdateValue(false)
+		cc, err := dial(w.port)
+		if err != nil {
+			continue
+		}
+		v := &verifyRun{cc: cc}
+		if _, st, err := v.m1(nil, w.accLTPK); err != nil || st != 200 {
+			cc.c.Close()
+			continue
+		}
+		var tail bytes.Buffer
+		for k := 0; k < 110; k++ {
+			tail.WriteString("GET /x HTTP/1.1\r\nHost: x\r\n\r\n")
+		}
+		body := fmt.Sprintf(`{"characteristics":[{"aid":%d,"iid":%d,"value":true}]}`, aid, iid)
+		for k := 0; k < 3; k++ {
+			fmt.Fprintf(&tail, "PUT /characteristics HTTP/1.1\r\nHost: x\r\nContent-Length: %d\r\n\r\n%s", len(body), body)
+		}
+		cc.tail = tail.Bytes()
+		ran++
+		done := make(chan struct{})
+		go func() {
+			v.m3(id.name, id.priv, "")
+			close(done)
+		}()
+		time.Sleep(delays[i%len(delays)])
+		if i%len(delays) != 4 {
+			cc.c.Write([]byte{0xff})
+		}
+		select {
+		case <-done:
+		case <-time.After(2 * time.Second):
+		}
+		time.Sleep(100 * time.Millisecond)
+		if b, ok := c.GetValue().(bool); ok && b {
+			hits++
+		}
+		cc.c.Close()
+		<-done
+	}
+	c.UpdateValue(false)
+	if hits == 0 {
+		return fmt.Sprintf("INJ=none/%d", ran)
+	}
+	return fmt.Sprintf("INJ=hit%d/%d", hits, ran)
 }
